@@ -118,7 +118,7 @@ NA = {
  "C14": "Lives in wrap + generated handlers + grpc-go metadata/context plumbing + reflect for ~30 servers; beyond a hand-written SSA executor here. Its resource-level content is decided under C01/C04/C06/C16 and routing under C12.",
 }
 
-HOOK_COMMITS = ['7517a3649d38fb05a2c7620af21939d9a2ec2fda', 'b09be76464588693ae75f65e9b07634b07f48a88', '664163afdd6fe4d949581a217897a7f1d257def8']
+HOOK_COMMITS = ['9f5b9aee3d68b205f9cf8119296192a25c689ede', '7517a3649d38fb05a2c7620af21939d9a2ec2fda', 'b09be76464588693ae75f65e9b07634b07f48a88', '664163afdd6fe4d949581a217897a7f1d257def8']
 
 def main():
     props = [json.loads(l)["id"] for l in open("/verif/properties.jsonl")]
